@@ -46,7 +46,7 @@ let parse_req (t : string) : req =
   | ["LV"; v; n] -> LookupVar (nat_of_int (int_of_string v), nat_of_int (int_of_string n))
   | _ -> failwith ("bad request " ^ t)
 
-let () =
+let builder_mode () =
   try
     while true do
       let line = input_line stdin in
@@ -58,3 +58,20 @@ let () =
            (List.map (fun o -> String.concat "," (List.map string_of_n o)) obs))
     done
   with End_of_file -> ()
+
+(* vector conversion cases: "<label> sT aT sU aU n c0 c1 ..." -> "<label> x,y,z,..." *)
+let vec_mode () =
+  try
+    while true do
+      let line = input_line stdin in
+      match List.filter (fun s -> s <> "") (String.split_on_char ' ' line) with
+      | label :: st :: at :: su :: au :: n :: sc ->
+          let c = (((((n_of_string st, n_of_string at), n_of_string su), n_of_string au),
+                    nat_of_int (int_of_string n)), List.map n_of_string sc) in
+          print_endline (label ^ " " ^ String.concat "," (List.map string_of_n (observe_vec c)))
+      | _ -> ()
+    done
+  with End_of_file -> ()
+
+let () =
+  if Array.length Sys.argv > 1 && Sys.argv.(1) = "vec" then vec_mode () else builder_mode ()
